@@ -9,4 +9,5 @@ for p in $(python3 -c "import json;print(' '.join(c['property_id'] for c in json
   [ $code -ne 0 ] && { echo "  -> $p exit $code"; rc=1; }
 done
 python3-vt validate.py || rc=1
+[ $rc -eq 0 ] && echo "RUNALL: all claimed checks pass, manifest and evidence valid" || echo "RUNALL: FAILED (do not commit evidence from this run)"
 exit $rc
